@@ -1,8 +1,77 @@
 import SpVerif.Model.Parquet
+import SpVerif.Lemmas.DaskFacts
+/-!
+# C12 — stored partition bounds are the true extents; pruning never loses a row
+
+Theorems about the metadata model: the natural-sort key orders `part.<i>.parquet` numerically for every number of
+partitions (the textual order does not from the eleventh on), re-sorting the loaded bounds rows by their integer key restores
+the partition order whatever order the JSON object came back in, and pruning by the recorded extent keeps every partition that
+holds a row intersecting the box — given that the recorded extent is the true extent, which is what the correspondence checks
+on every dataset it writes.
+-/
 namespace SpVerif
-open Parquet
-/-- textual and numeric order of part files differ from the eleventh partition on, the natural-sort key restores
-the numeric order (non-vacuity of the property's "more than ten partitions" clause) -/
+open Parquet Dask Geom Frames RTree
+
+/-- textual and numeric order of part files differ from the eleventh partition on -/
 theorem C12_textual_order_differs : ("part.10.parquet" < "part.2.parquet") = true ∧ keyLe (partKey 2) (partKey 10) = true := by
   decide
+
+/-- the natural-sort key orders part files numerically, for every pair of partition numbers -/
+theorem C12_natural_order (i j : Nat) : keyLe (partKey i) (partKey j) = decide (i ≤ j) := by
+  simp only [partKey, keyLe]
+  by_cases h : i = j
+  · subst h; simp [keyLe]
+  · have : (Tok.num i == Tok.num j) = false := by
+      rw [Bool.eq_false_iff]; intro hc; exact h (by simpa using hc)
+    simp [this, Tok.le]
+
+/-- `_load_partition_bounds`: whatever order the rows of the JSON object come back in, sorting them by their integer key
+yields the rows in partition order -/
+theorem C12_load_restores_order (rows : List (Nat × Nat)) (stored loaded : List (Nat × Nat))
+    (hs : stored = (List.range rows.length).zip (rows.map (·.2))) (hp : loaded.Perm stored) :
+    (loaded.mergeSort (fun a b => a.1 ≤ b.1)) = stored := by
+  have hsorted : stored.Pairwise (fun a b => decide (a.1 ≤ b.1) = true) := by
+    subst hs
+    have : ((List.range rows.length).zip (rows.map (·.2))).Pairwise (fun a b => a.1 < b.1) := by
+      rw [← List.pairwise_map (f := Prod.fst) (R := fun a b => a < b)]
+      rw [List.map_fst_zip (by simp)]
+      exact List.pairwise_lt_range
+    exact this.imp (fun h => by simp; omega)
+  have hnd : ∀ a b, a ∈ loaded.mergeSort (fun a b => a.1 ≤ b.1) → b ∈ stored → decide (a.1 ≤ b.1) = true → decide (b.1 ≤ a.1) = true → a = b := by
+    intro a b ha hb h1 h2
+    simp only [decide_eq_true_eq] at h1 h2
+    have ha' : a ∈ stored := hp.subset ((List.mergeSort_perm _ _).subset ha)
+    subst hs
+    obtain ⟨k, hk, rfl⟩ := List.mem_iff_getElem.mp ha'
+    obtain ⟨k', hk', rfl⟩ := List.mem_iff_getElem.mp hb
+    simp only [List.getElem_zip, List.getElem_range] at h1 h2 ⊢
+    have : k = k' := by omega
+    subst this; rfl
+  exact List.Perm.eq_of_pairwise (le := fun a b => decide (a.1 ≤ b.1)) hnd
+    (List.pairwise_mergeSort (by intro a b c; simp; omega) (by intro a b; simp; omega) loaded)
+    hsorted ((List.mergeSort_perm _ _).trans hp)
+
+/-- pruning keeps exactly the partitions whose recorded extent overlaps the closed (oriented) box -/
+theorem C12_prune_exact (bx0 by0 bx1 by1 x0 y0 x1 y1 : Int) :
+    keepPartition (bx0, by0, bx1, by1) (some (x0, y0, x1, y1)) = true ↔ ¬ (x1 < bx0 ∨ y1 < by0 ∨ x0 > bx1 ∨ y0 > by1) := by
+  simp [keepPartition]
+  omega
+
+/-- **pruning never loses a row**: if the recorded extent of a partition is the total bounds of its rows, a partition that
+holds a row intersecting the box is kept -/
+theorem C12_prune_loses_no_row (b : Box) (hb : orientBox b = b) (part : Part) (e : Elem) (he : some e ∈ part)
+    (hit : elemIB b (some e) = true) :
+    ∃ B, Dask.totalBounds part = some B ∧
+      keepPartition (b.x0, b.y0, b.x1, b.y1) (some (lo B 0, lo B 1, hi 2 B 0, hi 2 B 1)) = true := by
+  obtain ⟨bb, hbb, ho⟩ := elemIB_overlaps b e hit
+  rw [hb] at ho
+  obtain ⟨B, hB, hsub⟩ := totalBounds_contains part (some e) he (nbox bb) (elemBounds_eq e bb hbb)
+  refine ⟨B, hB, ?_⟩
+  rw [C12_prune_exact]
+  have h0 := hsub 0 (by omega); have h1 := hsub 1 (by omega)
+  simp only [nbox, lo, hi, List.getD_cons_zero, List.getD_cons_succ, show (2 : Nat) + 0 = 2 by rfl, show (2 : Nat) + 1 = 3 by rfl] at h0 h1
+  simp only [bboxOutside, Bool.or_eq_false_iff, decide_eq_false_iff_not] at ho
+  simp only [lo, hi, show (2 : Nat) + 0 = 2 by rfl, show (2 : Nat) + 1 = 3 by rfl]
+  omega
+
 end SpVerif
